@@ -599,3 +599,20 @@ def gen_paths_samples(ctx, path_cases, strip_cases):
     for c, m, i in zip(cases, res, impls):
         mo = C.parse_coq(m) if m is not None else None
         ctx.correspondence("regenerated text (paths2coq, kernel evaluation) ~ real function", c, mo, i)
+
+
+# ----------------------------------------------------------------------------- operations on twin datasets (harness/twins.py), C08 / C14
+def twin_partition_answer(pf, case):
+    """what a handle shows of the partition column of a partition twin: (id, cell) pairs, the labels, the dtype of the column"""
+    import json
+    out = pf.to_pandas()
+    col = case["col"] if case.get("scheme", "hive") == "hive" else "dir0"
+    if col not in out.columns:
+        return {"columns": [str(c) for c in out.columns]}
+    return {"cells": sorted([int(i), canon(v)] for i, v in zip(out["id"], out[col])),
+            "labels": sorted(json.dumps(canon(v)) for v in pf.cats.get(col, [])), "scheme": pf.file_scheme,
+            "categories_dtype": str(out[col].dtype.categories.dtype) if isinstance(out[col].dtype, pd.CategoricalDtype) else str(out[col].dtype)}
+
+
+def twin_files(root):
+    return [os.path.join(root, f) for f in tree_files(root)]
